@@ -1,7 +1,7 @@
 #!/bin/bash
 # import_seed.sh <Cxx> <name-suffix> <demo-relative-path-in-repo>   e.g. import_seed.sh C08 savecache-replays-peeked-reads internal/zz_demo_test.go
 # copies a sub-agent's deliverables from /tmp/seed7/<Cxx> into seeded/<Cxx>g-<suffix>/
-id=$1; name=$2; demo=$3; src=/tmp/seed7/$id; dst=/verif/seeded/${id}g-$name
+id=$1; name=$2; demo=$3; src=/tmp/${SEEDROUND:-seed8}/$id; dst=/verif/seeded/${id}${SEEDSFX:-h}-$name
 mkdir -p $dst
 ( cd $src && git diff -- . ':(exclude)*_test.go' ':(exclude)patch.diff' ':(exclude)notes.md' ) > $dst/patch.diff
 cp $src/$demo $dst/zz_demo_test.go
